@@ -29,13 +29,13 @@ DEC = ["std", "radix"]
 DEC_T = ["std", "radix", "nostd", "pow2", "compact", "radix_compact"]
 PLAN = {
     "C01": dict(q=dict(gated=[("std", 3000), ("radix", 3000)], miri=("std", 8, 4)),
-                t=dict(gated=[(v, 40000) for v in DEC_T], miri=("std", 48, 8))),
+                t=dict(gated=[(v, 40000) for v in DEC_T] + [("std_rel", 40000)], miri=("std", 48, 8))),
     "C02": dict(q=dict(gated=[("std", 3000), ("radix", 3000)], miri=("std", 8, 4)),
                 t=dict(gated=[(v, 40000) for v in DEC_T], miri=("std", 48, 8))),
     "C03": dict(q=dict(gated=[("radix", 5000), ("std", 2000)], miri=("radix", 12, 4)),
-                t=dict(gated=[("radix", 60000), ("std", 30000), ("pow2", 30000), ("compact", 30000), ("radix_compact", 30000)], miri=("radix", 64, 8))),
+                t=dict(gated=[("radix", 60000), ("std", 30000), ("pow2", 30000), ("compact", 30000), ("radix_compact", 30000), ("radix_rel", 40000)], miri=("radix", 64, 8))),
     "C04": dict(q=dict(gated=[("radix", 5000), ("std", 2000)], miri=("std", 12, 4)),
-                t=dict(gated=[("radix", 60000), ("std", 30000), ("pow2", 30000), ("compact", 30000), ("radix_compact", 30000)], miri=("std", 64, 8))),
+                t=dict(gated=[("radix", 60000), ("std", 30000), ("pow2", 30000), ("compact", 30000), ("radix_compact", 30000), ("radix_rel", 40000)], miri=("std", 64, 8))),
     "C05": dict(q=dict(gated=[("radix", 4000), ("pow2", 2000)], miri=("radix", 8, 4)),
                 t=dict(gated=[("radix", 60000), ("pow2", 30000), ("radix_compact", 30000)], miri=("radix", 48, 8))),
     "C06": dict(q=dict(gated=[("pow2", 3000), ("radix", 3000)], miri=("pow2", 12, 4)),
@@ -44,10 +44,10 @@ PLAN = {
                 t=dict(gated=[("radix", 60000), ("radix_compact", 30000)], miri=("radix", 48, 8))),
     "C08": dict(q=dict(gated=[("radix", 4000), ("std", 2000)], miri=("radix", 8, 4)),
                 t=dict(gated=[("radix", 60000), ("std", 30000), ("pow2", 30000), ("compact", 30000)], miri=("radix", 48, 8))),
-    "C09": dict(q=dict(gated=[("radix", 4000), ("std", 3000)], miri=("radix", 12, 4)),
-                t=dict(gated=[("radix", 60000), ("std", 30000), ("pow2", 30000), ("compact", 30000), ("radix_compact", 30000)], miri=("radix", 64, 8))),
-    "C10": dict(q=dict(gated=[("std", 3000), ("radix", 3000)], miri=("std", 8, 4)),
-                t=dict(gated=[(v, 40000) for v in DEC_T], miri=("std", 48, 8))),
+    "C09": dict(q=dict(gated=[("radix", 4000), ("std", 2500), ("radix_rel", 2000)], miri=("radix", 12, 4)),
+                t=dict(gated=[("radix", 60000), ("std", 30000), ("pow2", 30000), ("compact", 30000), ("radix_compact", 30000), ("radix_rel", 40000), ("std_rel", 20000)], miri=("radix", 64, 8))),
+    "C10": dict(q=dict(gated=[("std", 3000), ("radix", 2500), ("std_rel", 2000)], miri=("std", 8, 4)),
+                t=dict(gated=[(v, 40000) for v in DEC_T] + [("std_rel", 40000), ("radix_rel", 40000)], miri=("std", 48, 8))),
     "C11": dict(q=dict(gated=[("std", 3000), ("radix", 3000)], miri=("std", 8, 4)),
                 t=dict(gated=[(v, 40000) for v in DEC_T], miri=("std", 48, 8))),
     "C15": dict(q=dict(gated=[("std", 3000), ("radix", 2000)], miri=("std", 8, 4)),
@@ -641,10 +641,10 @@ def main():
         return replay(a[1])
     if a[0] == "setup":
         # everything the quick tier needs, built once from files on disk
-        build(["std", "nostd", "pow2", "radix", "compact"])
+        build(["std", "nostd", "pow2", "radix", "compact", "std_rel", "radix_rel"])
         for v in ("std", "radix", "pow2"):
             miri_build(v)
-        print("setup: simulator variants built (native: std nostd pow2 radix compact; interpreter: std radix pow2)")
+        print("setup: simulator variants built (native: std nostd pow2 radix compact std_rel radix_rel; interpreter: std radix pow2)")
         return 0
     if a[0] == "build":
         build(a[1:] or ["std", "nostd", "pow2", "radix", "compact"])
